@@ -49,7 +49,7 @@ m("c05_iso_global", "C05", r"C05\.ISO:writer:global_context", "render_component 
         state.filters = Some(&self.tera.filters);
         let mut output = Vec::with_capacity(1024);""", """        let mut state = State::new_with_chunk(&context, chunk);
         state.filters = Some(&self.tera.filters);
-        state.global_context = Some(&self.tera.global_context_ref());
+        state.global_context = state.include_parent.and_then(|p| p.global_context);
         let mut output = Vec::with_capacity(1024);""")
 m("c05_rec_include_reset", "C05", r"C05\.REC:render_include:child-depth", "render_include resets the component depth",
   "tera/src/vm/interpreter.rs", "            component_recursion_depth: self.component_recursion_depth,\n            include_depth: depth,",
